@@ -371,6 +371,13 @@ func (set *Set) add(hosts ...*Host) {
 		return
 	}
 	for _, host := range hosts {
+		// A different object for a known address replaces the old one, which
+		// must also leave the healthy tier it was in (the type may differ).
+		if old, ok := set.all[host.Addr]; ok && old != host {
+			delete(set.healthyMain, old.Addr)
+			delete(set.healthyBackup, old.Addr)
+			old.markRemoved()
+		}
 		set.all[host.Addr] = host
 	}
 	set.addToHealthy(hosts...)
